@@ -227,7 +227,14 @@ class LayoutPlugin(Plugin):
             n = ent[1] if ent else rec[3]
             alphabet = "ABCDEGHKMNOQRSTUVWXYZ"
             h = sum(ord(ch) for ch in rec[1])
-            return "".join(alphabet[(h + 7 * i) % len(alphabet)] for i in range(max(1, int(n))))
+            n = max(1, int(n))
+            txt = "".join(alphabet[(h + 7 * i) % len(alphabet)] for i in range(n))
+            # a name is any white-space free token: every other length ends like a sugar atom (O5', H5'') or digit
+            if n >= 3 and (h + n) % 2 == 0:
+                txt = txt[:-1] + "'"
+            elif n >= 2 and (h + n) % 3 == 0:
+                txt = txt[:-1] + "1"
+            return txt
         return NotImplemented
 
     # ---------------------------------------------------------------- f-strings
